@@ -12,6 +12,8 @@
 (***************************************************************************)
 EXTENDS ArcSwapAbs, Json, IOUtils
 
+CONSTANT SoloStepBound   \* C09: own steps of an operation that runs alone
+
 Rec == ndJsonDeserialize(IOEnv.TRACE)
 N   == Len(Rec)
 
@@ -30,6 +32,8 @@ Step ==
      ELSE IF e.e = "end" THEN
         /\ IF e.overrun
            THEN viols' = Append(viols, [x |-> nexec, line |-> l, prop |-> "C09", why |-> "execution exceeded the step limit: some operation does not complete"])
+           ELSE IF e.info.solo_max > SoloStepBound
+           THEN viols' = Append(viols, [x |-> nexec, line |-> l, prop |-> "C09", why |-> "an operation running alone (all other threads frozen) did not complete within the bound"])
            ELSE UNCHANGED viols
         /\ UNCHANGED <<st, skip, nexec>>
      ELSE LET v == Verdict(st, e) IN
